@@ -100,7 +100,7 @@ class Gen:
                 cases.append(("ok", version, others + [self.route(action, ("ret", snake(rng.choice(valid_resps)[1])), sig=sig,
                                                                  is_async=rng.choice([False, True, "future", "awaitable"]), after=hv, after_sig=asig,
                                                                  after_async=rng.random() < 0.5)],
-                              self.frame(uid, action, req)))
+                              self.frame(uid, action, req), {"send_style": rng.choice([None, None, "task", "awaitable"])}))
                 # 1b. the same kind of exchange while the connection refuses the write of the reply
                 if rng.random() < 0.5:
                     cases.append(("send-fails", version, [self.route(action, ("ret", snake(vr)), after=("ret",),
@@ -423,7 +423,8 @@ def run_cases(rep, cases, tag, prop_id, oracle, async_modes=(False,), shard_size
             continue
         for am in async_modes:
             send_ok = info.get("send_ok", True)
-            obs = D.observe_frame(version, routes, raw, async_validation=am, send_ok=send_ok, prelude=info.get("prelude"))
+            obs = D.observe_frame(version, routes, raw, async_validation=am, send_ok=send_ok, prelude=info.get("prelude"),
+                                  send_style=info.get("send_style"))
             rep.count(json.dumps([version, repr(routes), repr(raw)], default=repr))
             rep.add("stratum:" + kind)
             replay = {"kind": "dispatch", "stratum": kind, "version": version, "routes": routes, "info": info,
